@@ -241,12 +241,16 @@ func (m *monC11) OnStep(r *Runner, st *Step) {
 		r.Violate("C11.d", "supply-of", fmt.Sprintf("SupplyOf(%s) = %s, supply %s minus alliance-bonded %s = %s", BondDenom, so.Amount.Amount, post.Supply.AmountOf(BondDenom), rstr(bonded), rstr(wantNet)))
 		return
 	}
-	for _, lim := range []uint64{0, 1, 2} {
+	// page-size patterns (cycled): uniform pages, and mixed ones so that the staking denom also lands in the middle
+	// and at the end of a key-continued page, not only at its start
+	for pi, pat := range [][]uint64{{0}, {1}, {2}, {3}, {1, 2}, {1, 3}, {2, 1, 3}, {1, 1, 2}} {
+		lim := pat[0]
 		total := sdkmath.ZeroInt()
 		seen := 0
 		var key []byte
 		for i := 0; i < 100; i++ {
 			req := &banktypes.QueryTotalSupplyRequest{}
+			lim = pat[i%len(pat)]
 			if lim > 0 {
 				req.Pagination = &query.PageRequest{Limit: lim, Key: key}
 			}
@@ -267,7 +271,7 @@ func (m *monC11) OnStep(r *Runner, st *Step) {
 			key = ts.Pagination.NextKey
 		}
 		if seen != 1 || !within(ratInt(total), wantNet, one) || !total.Equal(so.Amount.Amount) {
-			r.Violate("C11.d", fmt.Sprintf("total-supply:limit%d", lim), fmt.Sprintf("TotalSupply lists %s %d time(s) with amount %s, expected once with %s", BondDenom, seen, total, rstr(wantNet)))
+			r.Violate("C11.d", fmt.Sprintf("total-supply:pages%d", pi), fmt.Sprintf("TotalSupply paged with sizes %v lists %s %d time(s) with amount %s, expected once with %s", pat, BondDenom, seen, total, rstr(wantNet)))
 			return
 		}
 	}
